@@ -168,6 +168,16 @@ def spectrum_to(case, ctx):
     value = case["value"] / f if vu else case["value"]
     with lentil_call("C14.spectrum.make", f"{case.get('cls', 'Spectrum')} in ({u}, {vu})"):
         s = make_spectrum(case, wave, value, u, vu)
+        # whatever its class, the object is a spectrum whose samples may have been edited since construction
+        # (emissivity applied, band edges zeroed): conversions act on the samples it holds now
+        ed = (int(case["wave_m"].size) + len(case["path"]) + int(case.get("two_arg", False))) % 4
+        if ed == 1:
+            s.value = np.asarray(s.value) * np.linspace(0.3, 0.9, np.asarray(s.value).size)
+        elif ed == 2 and np.asarray(s.value).size >= 3:
+            s.value[0] = 0.0
+            s.value[-1] *= 0.5
+        ctx.tag(["edit:none", "edit:assign", "edit:inplace", "edit:none"][ed])
+        edited = (np.asarray(s.wave, dtype=float).copy(), np.asarray(s.value, dtype=float).copy())
     value = np.asarray(s.value, dtype=float).copy()
     if not np.all(np.isfinite(value)) or not np.any(value) or np.max(np.abs(value)) > 1e200 \
             or np.min(np.abs(value[value != 0])) < 1e-200:
@@ -231,6 +241,7 @@ def spectrum_to(case, ctx):
         t_f = [p for p in case["path"] if p in FNAMES][-1:] or ["wlam"]
         s1 = make_spectrum(case, wave, value, u, vu)
         s2 = make_spectrum(case, wave, value, u, vu)
+        s1.value, s2.value = edited[1].copy(), edited[1].copy()
         with lentil_call("C14.spectrum.two_arg", f"to({t_w[0]}, {t_f[0]})"):
             s1.to(t_w[0], t_f[0])
             s2.to(t_w[0])
